@@ -10,6 +10,7 @@ import JominiModel.Proofs.WriterGenTape
 import JominiModel.Proofs.WriterJ
 import JominiModel.Proofs.WriterFullWalk
 import JominiModel.Proofs.WriterFullParse
+import JominiModel.Proofs.WriterSinkTape
 /-
 C14 — Writing a parsed tape and re-parsing reproduces the same structure; writing is idempotent.
 Only property theorems live here; helper lemmas are in `Proofs/Writer.lean`.
@@ -493,6 +494,38 @@ example :
            | _ => false)
         | _ => false)
      | _ => false) = true := by
+  decide +kernel
+
+/-- **`write_tape` into a failing sink.**  `writeTapeF cap` (Model/WriterSink.lean) is the index walk of
+`write_tape` on a writer whose sink accepts the first `cap` bytes and then refuses every non-empty
+write, mirrored statement by statement (the `?` after each write).  For every token list on which
+`write_tape` succeeds over an unlimited sink — by `writeTape_full` that is the tape of EVERY document of
+the full document type —, every `cap`, indent byte and factor:
+
+  * what reached the sink is exactly the first `min cap len` bytes of the full output;
+  * the result is `Err(io)` exactly when the full output is longer than `cap` — never a panic;
+  * when the output fits, result and final writer are those of the unlimited run.
+
+Tied to the real code by the correspondence op `wtapew`. -/
+theorem C14_failing_sink (toks : List Tok) (cap : Nat) (c : UInt8) (f : Nat) (s' : State)
+    (h : writeTape toks (State.init c f) = .ok s') :
+    (writeTapeF cap toks (State.init c f)).2.out = s'.out.take cap ∧
+    ((writeTapeF cap toks (State.init c f)).1 = .error .io ↔ cap < s'.out.length) ∧
+    (s'.out.length ≤ cap → writeTapeF cap toks (State.init c f) = (.ok (), s')) := by
+  obtain ⟨h1, h2⟩ := writeTape_sink cap toks (State.init c f) s' (by simp [State.init]) h
+  by_cases hl : s'.out.length ≤ cap
+  · have e := h1 hl
+    exact ⟨by rw [e, List.take_of_length_le hl], ⟨fun hio => by rw [e] at hio; simp at hio, fun hlt => by omega⟩, h1⟩
+  · obtain ⟨r1, r2⟩ := h2 (by omega)
+    exact ⟨r2, ⟨fun _ => by omega, fun _ => r1⟩, fun hle => absurd hle hl⟩
+
+/-- `a={ b }` needs 9 bytes (`a={⏎  b⏎}`): with room for 5 the walk stops with `Err(io)` after `a={⏎ ` -/
+example : (writeTapeF 5 [.unquoted [97], .array 3 false, .unquoted [98], .end 1] (State.init 32 2)).2.out =
+      [97, 61, 123, 10, 32] ∧
+    (match (writeTapeF 5 [.unquoted [97], .array 3 false, .unquoted [98], .end 1] (State.init 32 2)).1 with
+     | .error .io => true | _ => false) = true ∧
+    (writeTape [.unquoted [97], .array 3 false, .unquoted [98], .end 1] (State.init 32 2)).toOption.map (·.out) =
+      some [97, 61, 123, 10, 32, 32, 98, 10, 125] := by
   decide +kernel
 
 /-
